@@ -51,13 +51,13 @@ RANDOM_STEPS = {"quick": 4000, "thorough": 100000}
 
 
 def write_cfg(ctx, name, consts, invariants, export=True):
-    """cfg files are generated into spec/ (TLC wants them next to the module); removed afterwards."""
+    """cfg files are generated into the scratch directory of the run (TLC takes an absolute -config path)"""
     lines = ["SPECIFICATION Spec", "CONSTANTS"]
     for k, v in consts.items():
         lines.append("  %s %s %s" % (k, "<-" if isinstance(v, str) else "=", v))
     lines += ["VIEW View", "INVARIANTS " + " ".join(invariants + (["Export"] if export else [])), "CHECK_DEADLOCK FALSE"]
-    fn = "_MC_Transport_%s_%s.cfg" % (ctx.pid, name)
-    with open(os.path.join(C.SPEC, fn), "w") as f:
+    fn = ctx.path("MC_Transport_%s_%s.cfg" % (ctx.pid, name))
+    with open(fn, "w") as f:
         f.write("\n".join(lines) + "\n")
     return fn
 
@@ -363,36 +363,27 @@ def run(ctx):
 
     # ---- 1. model checking I => A, export of behaviours
     scenarios = []
-    cfgs = []
     inv = C04_INV if pid == "C04" else C17_INV
     coverage = {}
-    try:
-        for name, consts, comment in MC[(pid, tier)]:
-            consts = dict(consts)
-            export = not consts.pop("NoExport", 0)
-            cfg = write_cfg(ctx, name, consts, inv, export=export)
-            cfgs.append(cfg)
-            ign = READER_ACTIONS if consts["Kinds"] == "MC_KindsW" else ()
-            r = C.tlc_mc(ctx, "MC_Transport", cfg=cfg, workers=8, timeout=1800 if ctx.quick else 7200, ignore_uncovered=ign)
-            for v in r["violated"]:
-                if v != "Export":
-                    # a counterexample of I => A: a design-level defect candidate of the modelled algorithm
-                    ctx.violation("%s|model|%s" % (pid, v), {"config": comment, "tlc": r["output"][-2500:]},
-                                  replay_src={"what": "TLC counterexample", "config": consts, "output": r["output"][-6000:]})
-            n0 = len(scenarios)
-            for m in re.finditer(r'<<"REPLAY", (".*?")>>\s*$', r["output"], re.M):
-                scenarios.append(json.loads(json.loads(m.group(1))))
-            coverage[name] = {"comment": comment, "distinct": r["distinct"], "generated": r["generated"], "wall_s": r["wall_s"],
-                              "behaviours_exported": len(scenarios) - n0,
-                              "actions": {k.split("!")[1]: v for k, v in r.get("actions", {}).items() if k.startswith("TransportImpl!")}}
-            C.log("MC %s (%s): %d distinct states, %d generated, %.0fs, %d behaviours" % (
-                name, comment, r["distinct"], r["generated"], r["wall_s"], len(scenarios) - n0))
-    finally:
-        for cfg in cfgs:
-            try:
-                os.remove(os.path.join(C.SPEC, cfg))
-            except OSError:
-                pass
+    for name, consts, comment in MC[(pid, tier)]:
+        consts = dict(consts)
+        export = not consts.pop("NoExport", 0)
+        cfg = write_cfg(ctx, name, consts, inv, export=export)
+        ign = READER_ACTIONS if consts["Kinds"] == "MC_KindsW" else ()
+        r = C.tlc_mc(ctx, "MC_Transport", cfg=cfg, workers=8, timeout=1800 if ctx.quick else 7200, ignore_uncovered=ign)
+        for v in r["violated"]:
+            if v != "Export":
+                # a counterexample of I => A: a design-level defect candidate of the modelled algorithm
+                ctx.violation("%s|model|%s" % (pid, v), {"config": comment, "tlc": r["output"][-2500:]},
+                              replay_src={"what": "TLC counterexample", "config": consts, "output": r["output"][-6000:]})
+        n0 = len(scenarios)
+        for m in re.finditer(r'<<"REPLAY", (".*?")>>\s*$', r["output"], re.M):
+            scenarios.append(json.loads(json.loads(m.group(1))))
+        coverage[name] = {"comment": comment, "distinct": r["distinct"], "generated": r["generated"], "wall_s": r["wall_s"],
+                          "behaviours_exported": len(scenarios) - n0,
+                          "actions": {k.split("!")[1]: v for k, v in r.get("actions", {}).items() if k.startswith("TransportImpl!")}}
+        C.log("MC %s (%s): %d distinct states, %d generated, %.0fs, %d behaviours" % (
+            name, comment, r["distinct"], r["generated"], r["wall_s"], len(scenarios) - n0))
     if not scenarios:
         raise C.ToolError("TLC exported no behaviours")
     if pid == "C04":
@@ -497,11 +488,8 @@ def run_replay_file(ctx, bindir):
         consts = dict(sc["config"])
         consts.pop("NoExport", None)
         cfg = write_cfg(ctx, "replay", consts, C04_INV if ctx.pid == "C04" else C17_INV, export=False)
-        try:
-            r = C.tlc_mc(ctx, "MC_Transport", cfg=cfg, workers=8, timeout=3000,
-                         ignore_uncovered=READER_ACTIONS if consts.get("Kinds") == "MC_KindsW" else ())
-        finally:
-            os.remove(os.path.join(C.SPEC, cfg))
+        r = C.tlc_mc(ctx, "MC_Transport", cfg=cfg, workers=8, timeout=3000,
+                     ignore_uncovered=READER_ACTIONS if consts.get("Kinds") == "MC_KindsW" else ())
         for v in r["violated"]:
             ctx.violation("%s|model|%s" % (ctx.pid, v), {"tlc": r["output"][-2500:]}, replay_src=sc)
     elif sc.get("model_scenario"):
